@@ -177,8 +177,9 @@ def r3(ctx, rep):
     rep.rule("C15.R3", "non-finite floats (not representable in JSON) cannot be constructed", floor=1)
     syn = ctx.syn
     nf = syn.fn("lexer::number", crate="prqlc_parser")
-    txt = show_stmts(nf["body"], maxdepth=20)
-    rep.check("is_finite" in txt, "finite-guard", "`1e999` lexes to Literal::Float(inf); serde_json writes a non-finite f64 as `null`, so the PL document of such a program reads back as a different tree "
+    import C08
+    conds = C08.float_literal_conditions(nf)
+    rep.check(conds is not None and bool(conds[0] & {".is_finite()", ".is_infinite()", ".is_nan()"}), "finite-guard", "`1e999` lexes to Literal::Float(inf); serde_json writes a non-finite f64 as `null`, so the PL document of such a program reads back as a different tree "
               "(Float(null) fails to deserialise)", file=nf["file"], line=nf["l"], fn=nf["path"])
 
 
